@@ -14,7 +14,9 @@
 // the same address, an assignment, a mutation through an entry point that is not wrapped), a new episode starts
 // from the observed state.  The encoder's template overloads are instantiated in the tests' translation units and
 // consist of init / putPacket... / getEncodedData: the three are wrapped and logged as one enc.encode event.
+#ifndef SUITE_EXAMPLE
 #include <gtest/gtest.h>
+#endif
 
 #include <cstdio>
 #include <cstdlib>
@@ -173,6 +175,21 @@ struct Recorder
     }
 };
 
+#ifdef SUITE_EXAMPLE
+// the example program (example/main.cpp) instead of the test suite: one "test", flushed when the program exits
+Recorder& rec();
+void flushAtExit()
+{
+    rec().flush();
+}
+Recorder& rec()
+{
+    static Recorder r;
+    static bool once = (r.test = "example.main", atexit(flushAtExit), true);   // after r: runs before r is destroyed
+    (void)once;
+    return r;
+}
+#else
 Recorder& rec()
 {
     static Recorder r;
@@ -197,6 +214,7 @@ struct Install
 {
     Install() { testing::UnitTest::GetInstance()->listeners().Append(new Listener); }
 } install;
+#endif
 
 // ------------------------------------------------------------------ encoder
 std::string encState(const Encoder& enc)
